@@ -264,4 +264,145 @@ example : exLoads.reverse.Perm exLoads := List.reverse_perm _
 -- "2020-01-02"; `DatesOk` excludes such loads
 example : ¬ DatesOk [mk false "m" ["2020-1-01"]] := by decide
 
+/-! ## (b) the file chooser
+
+Reading aid.  `findFile root path m` is `ms.findFile(m)` with `ms.Path = path` in a current
+directory whose content is the tree `root` (`Model/File.lean` says what is modelled of the
+operating system).  `Found.chosen` is the file name it returns.  `Spec.File.choose root' entries m`
+is the specification: the directories `searchDirs` — the current directory, then what every
+path entry stands for, in path order (a `d/...` entry standing for `d` and everything below it,
+in the order `Spec.File.under`) — are considered one after the other, and the best candidate
+(`bestIn`: `m.yang`, else the `m@YYYY-MM-DD.yang` with the greatest date) of the first directory
+that has a candidate is taken.  `root.norm` is `root` with every listing in `ReadDir` (name)
+order, `parsePath` the path entries in parsed form, `render` the path string of a component list.
+-/
+section File
+open Goyang.Model.File Goyang.Spec.File
+open Goyang.Lemmas.File (IsModuleName RootOk findFileIn_module findFileIn_candidate rootOk_norm datedOf_some
+  lastSorted_eq_latestDated lastSorted_spec revsOf mem_dated dated_of_mem_revs exact_of_mem_files bestIn_mem)
+
+/-- **First search-path directory holding a candidate; `name.yang`, else the latest date.**
+For a module name `m` (no `/`, not ending in `.yang`), a current directory whose entries have
+distinct names, and a search path of clean relative entries, `findFile` returns exactly the file
+the specification chooses — and nothing when the specification finds no candidate. -/
+theorem choose_exact_else_latest (root : FsNode) (path : List Name) (entries : List Entry) (m : Name)
+    (hm : IsModuleName m) (hroot : RootOk root) (hp : parsePath path = some entries) :
+    (findFile root path m).chosen = (choose root.norm entries m).map render ∧
+    (findFile root path m = .noSuchFile ↔ choose root.norm entries m = none) := by
+  unfold findFile
+  rw [findFileIn_module (rootOk_norm hroot) hp hm]
+  cases choose root.norm entries m with
+  | none => simp [Found.chosen]
+  | some p => simp [Found.chosen]
+
+/-- **Never a file of a differently named module.**  Whatever `findFile` returns for a module name
+`m` — any tree, any search path — is a path whose last component is `m.yang` or `m@…​.yang` with
+a well-formed date in between and nothing else (`IsCandidateName`, spelled out by
+`candidate_name_shape`). -/
+theorem choose_never_other_module (root : FsNode) (path : List Name) (m : Name) (hm : IsModuleName m)
+    {n : Name} (h : (findFile root path m).chosen = some n) :
+    ∃ dir fn, n = render (dir ++ [fn]) ∧ IsCandidateName m fn :=
+  findFileIn_candidate hm h
+
+/-- What a candidate name looks like: the module name, then either `.yang`, or `@`, four digits,
+`-`, two digits, `-`, two digits, `.yang` — the remainder after the module name matches
+`@dddd-dd-dd.yang` exactly. -/
+theorem candidate_name_shape {m fn : Name} (h : IsCandidateName m fn) :
+    fn = m ++ ".yang".toList ∨
+    ∃ y1 y2 y3 y4 m1 m2 d1 d2 : Char, [y1, y2, y3, y4, m1, m2, d1, d2].all Spec.isDigit = true ∧
+      fn = m ++ '@' :: [y1, y2, y3, y4, '-', m1, m2, '-', d1, d2] ++ ".yang".toList := by
+  rcases h with h | h
+  · exact .inl h
+  · right
+    obtain ⟨d, hd⟩ := Option.isSome_iff_exists.mp h
+    obtain ⟨ds, rfl, hp⟩ := datedOf_some hd
+    obtain ⟨y1, y2, y3, y4, m1, m2, d1, d2, rfl, hdig, _⟩ := Goyang.Lemmas.Date.parseDate_some hp
+    exact ⟨y1, y2, y3, y4, m1, m2, d1, d2, hdig, rfl⟩
+
+/-- The specification's "best candidate of a directory", spelled out: `m.yang` when it is among
+the regular files; otherwise a dated candidate such that no dated candidate of the directory has
+a later date; nothing exactly when the directory has no candidate. -/
+theorem bestIn_reading (m : Name) (es : Listing) :
+    (m ++ ".yang".toList ∈ files es → bestIn m es = some (m ++ ".yang".toList)) ∧
+    (∀ fn, bestIn m es = some fn → fn ∈ files es ∧ IsCandidateName m fn) ∧
+    (m ++ ".yang".toList ∉ files es → ∀ fn, bestIn m es = some fn →
+      ∃ d, datedOf m fn = some d ∧ ∀ fn' ∈ files es, ∀ d', datedOf m fn' = some d' → d'.le d = true) ∧
+    (bestIn m es = none ↔ ∀ fn ∈ files es, ¬ IsCandidateName m fn) := by
+  have hY : dotYang = ".yang".toList := by decide
+  refine ⟨fun h => ?_, fun fn h => bestIn_mem h, fun hno fn h => ?_, ?_⟩
+  · rw [← hY] at h ⊢; exact exact_of_mem_files h
+  · -- no exact match: the result is `latestDated`
+    have hex : exact? m es = none := by
+      unfold exact?; simp [hno]
+    unfold bestIn at h; rw [hex] at h
+    unfold latestDated at h
+    rw [Option.map_eq_some_iff] at h
+    obtain ⟨c, hc, rfl⟩ := h
+    have hm := List.mem_of_find?_eq_some hc
+    have hP := List.all_eq_true.mp (List.find?_some hc)
+    refine ⟨c.2, (mem_dated hm).1, ?_⟩
+    intro fn' hfn' d' hd'
+    have : fn' ∈ revsOf m es := by
+      unfold revsOf
+      rw [List.mem_filter, Goyang.Lemmas.File.isRevisionOf_iff, hd']
+      exact ⟨hfn', rfl⟩
+    obtain ⟨d'', hd''⟩ := dated_of_mem_revs this
+    have e := (mem_dated hd'').1
+    simp only at e
+    rw [hd'] at e
+    simp only [Option.some.injEq] at e; subst e
+    exact hP (fn', d') hd''
+  · constructor
+    · intro hnone fn hfn hc
+      rcases hc with rfl | hc
+      · have := exact_of_mem_files (hY ▸ hfn)
+        rw [hnone] at this; cases this
+      · have hex : exact? m es = none := by
+          cases he : exact? m es with
+          | none => rfl
+          | some f => unfold bestIn at hnone; rw [he] at hnone; cases hnone
+        unfold bestIn at hnone; rw [hex] at hnone
+        simp only at hnone
+        rw [← lastSorted_eq_latestDated] at hnone
+        have hmem : fn ∈ revsOf m es := by
+          unfold revsOf
+          rw [List.mem_filter, Goyang.Lemmas.File.isRevisionOf_iff]
+          exact ⟨hfn, hc⟩
+        rcases lastSorted_spec (revs := revsOf m es) with ⟨hnil, _⟩ | ⟨x, hx, _, _⟩
+        · rw [hnil] at hmem; cases hmem
+        · rw [hx] at hnone; cases hnone
+    · intro hall
+      cases hb : bestIn m es with
+      | none => rfl
+      | some fn => exact absurd (bestIn_mem hb).2 (hall fn (bestIn_mem hb).1)
+
+/-! ### the hypotheses are satisfiable, and the statements say something -/
+
+private def nm (s : String) : Name := s.toList
+private def f (s : String) : Name × FsNode := (nm s, .file)
+private def d (s : String) (es : List (Name × FsNode)) : Name × FsNode := (nm s, .dir es)
+
+/-- near misses in the current directory, two dated candidates in `p`, an exact one in `q` -/
+def exTree : FsNode := .dir [
+  f "foobar.yang", f "foo@2020-1-01.yang", f "foo@2020-01-01.yang.bak", d "foo.yang" [f "foo.yang"],
+  d "p" [f "foo@2019-12-31.yang", f "foo@2020-01-01.yang", f "foo@2020-1-02.yang"],
+  d "q" [f "foo.yang", f "foo@2021-01-01.yang"]]
+
+example : IsModuleName (nm "foo") := by decide
+example : RootOk exTree := by decide
+example : parsePath [nm "p", nm "q"] = some [⟨[nm "p"], false⟩, ⟨[nm "q"], false⟩] := by decide
+example : (findFile exTree [nm "p", nm "q"] (nm "foo")).chosen = some (nm "p/foo@2020-01-01.yang") := by decide
+example : (findFile exTree [nm "q", nm "p"] (nm "foo")).chosen = some (nm "q/foo.yang") := by decide
+example : (choose exTree.norm [⟨[nm "p"], false⟩, ⟨[nm "q"], false⟩] (nm "foo")).map render =
+    some (nm "p/foo@2020-01-01.yang") := by decide
+example : findFile exTree [] (nm "foo") = .noSuchFile := by decide
+-- `...`: everything below the current directory; `foo.yang/foo.yang` comes first in name order
+example : (findFile exTree [nm "..."] (nm "foo")).chosen = some (nm "foo.yang/foo.yang") := by decide
+example : IsCandidateName (nm "foo") (nm "foo@2020-01-01.yang") := by decide
+example : ¬ IsCandidateName (nm "foo") (nm "foo@2020-1-01.yang") := by decide
+example : ¬ IsCandidateName (nm "foo") (nm "foobar.yang") := by decide
+example : ¬ IsCandidateName (nm "foo") (nm "foo@2020-01-01.yang.bak") := by decide
+
+end File
+
 end Goyang.Props.C13
